@@ -157,6 +157,17 @@ def run (sh : Sh p) (w : World p) (ops : List (Op p)) : World p := ops.foldl (st
 /-- the code before the repair of `Clear` -/
 def runOld (sh : Sh p) (w : World p) (ops : List (Op p)) : World p := ops.foldl (stepWith clearOld sh) w
 
+/-- `HAProxyUpdate` as a whole (end-to-end runs): `writeConfig` is only reached when the dynamic
+updater did not report "old and new configurations match".  With backends only (no host, global,
+tcp or userlist change) it reports a match iff committed data exists (`globalOld != nil`: an update
+ran since the last `config.Clear`) and no added backend is left after `Shrink` — removed backends
+without a counterpart are not looked at (`backendUpdated`: `pair.cur != nil && ...`).  `Commit` is
+deferred, so it runs on this path too. -/
+def updateGated (sh : Sh p) (committed : Bool) (w : World p) : World p :=
+  let s := shrink sh w.store
+  if committed && !(anyFin fun x => (s.add x).isSome) then { store := commit s, disk := w.disk }
+  else { store := commit s, disk := write sh s w.disk }
+
 /-- what a file of shard `k` must hold: the current items of that shard -/
 def itemsIn (sh : Sh p) (s : Store p) (k : Nat) : Map p := fun x => if sh.shardOf x = k then s.items x else none
 
